@@ -113,7 +113,9 @@ pub fn check(rec: &RunRecord, reg: &Reg, cells: &mut Cells) -> Vec<Finding> {
                     // is the addressed handler one with a native 128 bit integer parameter?
                     let key0 = serde_json::from_slice::<Value>(&bytes).ok().and_then(|v| v.as_object().and_then(|o| o.keys().next().cloned())).unwrap_or_default();
                     let int128 = e.spec.of_kind(kind).any(|h| h.part == part && h.wire == key0 && h.args.iter().any(|a| a.ty == "u128" || a.ty == "i128"));
-                    let shape = if int128 { "int128_param" } else { shape };
+                    // ... or one addressed by the second name a forwarded serde alias gives it?
+                    let alias = e.spec.of_kind(kind).any(|h| h.part == part && !h.alias.is_empty() && h.alias == key0);
+                    let shape = if int128 { "int128_param" } else if alias { "alias_name" } else { shape };
                     match &wrapper {
                         Err(err) => out.push(Finding::new("C03", "c03.wrapper_rejects", op.idx, format!("[doc-shape={}] {}: part `{}` accepts {} but the contract-level {} message rejects it: {}", shape, d.cid(), part, d.msg(), d.entry(), err))),
                         Ok(wj) => {
@@ -161,7 +163,8 @@ pub fn check(rec: &RunRecord, reg: &Reg, cells: &mut Cells) -> Vec<Finding> {
                         let known: BTreeSet<String> = lists.iter().flat_map(|(_, l)| l.iter().cloned()).collect();
                         if !known.contains(&key) {
                             cells.hit(format!("c03.unknown_name|{}", d.entry()));
-                            let spec_names: BTreeSet<String> = e.spec.of_kind(kind).map(|h| h.wire.to_string()).collect();
+                            // (a forwarded serde alias is a second supported name)
+                            let spec_names: BTreeSet<String> = e.spec.of_kind(kind).flat_map(|h| [h.wire.to_string(), h.alias.to_string()]).filter(|n| !n.is_empty()).collect();
                             let text = res["err"]["text"].as_str().unwrap_or("");
                             // names of this contract's *other* kinds must not be offered
                             let foreign: BTreeSet<String> = e.spec.handlers.iter().filter(|h| h.kind != kind && !h.wire.is_empty() && !spec_names.contains(h.wire)).map(|h| h.wire.to_string()).collect();
